@@ -1,12 +1,12 @@
 SPECIFICATION Spec
 CONSTANTS
-  Shapes <- ShapesQ
-  Tilings <- TilingsQ
+  Pairs <- PairsQ
   MaxT = 2
   Variant = "ok"
   Dense = TRUE
-  Basis = "all"
+  Basis = "auto"
   Singles = "none"
 INVARIANT TypeOK
 INVARIANT TileInv
+INVARIANT BigIsQuasiPeriodic
 CHECK_DEADLOCK FALSE
